@@ -177,6 +177,8 @@ def _run_one(idx: int) -> ProgResult:
 def run_programs(pid: str, programs: list[Program], rule: str, seed: int = 0,
                  assumptions: list[str] | None = None, workers: int | None = None) -> CheckResult:
     global _PROGRAMS
+    if os.environ.get("VMC_ONLY"):  # development only: run the programs whose name contains this text
+        programs = [p for p in programs if os.environ["VMC_ONLY"] in p.name]
     _PROGRAMS = programs
     res = CheckResult(pid, rule)
     res.assumptions = list(assumptions or [])
